@@ -1070,6 +1070,19 @@ struct Scanner : RecursiveASTVisitor<Scanner> {
             statics.push_back(std::move(s));
          }
       o["static_members"] = std::move(statics);
+      // using-declarations: names of a base class made visible again next to members that would hide them
+      json::Array usings;
+      for (auto D : RD->decls())
+         if (auto U = dyn_cast<UsingDecl>(D)) {
+            json::Object u;
+            u["name"] = U->getNameAsString();
+            std::string from;
+            if (auto Q = U->getQualifier())
+               if (auto T = Q->getAsType()) from = typeStr(QualType(T, 0));
+            u["from"] = from;
+            usings.push_back(std::move(u));
+         }
+      o["usings"] = std::move(usings);
       json::Array methods;
       for (auto M : RD->methods()) {
          json::Object m;
